@@ -87,6 +87,20 @@ def jsonable(x):
     return {"$repr": repr(x)}
 
 
+def scribble(resp, who):
+    """After a check has taken its canonical copy of a response, annotate its error entries the way the
+    documented error-coercer example does (in-place write into `extensions`, extra top-level key).  If the
+    engine still shares those dicts with cached errors or rule-level constants, later responses show it.
+    (`path` lists are left alone: nothing documents writing into them.)"""
+    if isinstance(resp, dict):
+        for e in resp.get("errors") or ():
+            if isinstance(e, dict):
+                # exactly what docs/api/engine.md shows an error coercer doing: error["extensions"][k] = v
+                if isinstance(e.get("extensions"), dict):
+                    e["extensions"]["zz_touched_by"] = who
+                e["zz_touched_by"] = who
+
+
 def spec_hash(spec):
     return hashlib.sha1(json.dumps(jsonable(spec), sort_keys=True).encode()).hexdigest()
 
@@ -185,16 +199,30 @@ def run_property(case_fn, seed, max_examples, stats, budget_s=None, shrink=True,
             break
         n = min(per, max_examples - done)
 
+        seen = []
+
         @hypothesis.seed(derive_seed(seed, 1000 + b))
         @hyp_settings(n, shrink)
         @given(st.data())
         def test(data):
-            case_fn(HChooser(data), stats)
+            try:
+                case_fn(HChooser(data), stats)
+            except Violation as v:
+                seen.append(v)
+                raise
 
         try:
             test()
         except Violation as v:
             return v
+        except BaseException as e:  # noqa
+            # A violation that does not reproduce when Hypothesis re-runs the same case (the code under test
+            # kept state from the first run) surfaces as a Flaky* error: the first observation still stands.
+            if seen and type(e).__name__.startswith("Flaky"):
+                v = seen[0]
+                v.message = "(not reproducible on immediate re-execution: the engine keeps state across requests/engines) " + v.message
+                return v
+            raise
         done += n
         b += 1
     return None
